@@ -6,9 +6,15 @@ TIE_DENY = [(f"TieDeny.{n}", "Relay.Tie.Deny") for n in
             ["allow_tie", "deny_tie", "isDenied_tie", "setNow_tie", "prune_tie", "getDenyList_tie", "getAllowList_tie", "coverage"]]
 TIE_TTLCODE = [(f"TieTtlCode.{n}", "Relay.Tie.TtlCode") for n in
                ["submit_tie", "exchange_tie", "exchange_unknown", "clean_tie", "deleteByBooking_tie", "count_tie", "good_after", "coverage"]]
+# the assumption "each store method is one atomic step" is C12's lock-discipline obligation over the REGENERATED lock table:
+# every property that makes the assumption audits it too
+TIE_LOCKS = [(f"C12.{n}", "Relay.Props.C12") for n in ["all_wellLocked", "stores_race_free", "store_methods_single_section", "store_ops_linearizable"]]
+TIE_DENY = TIE_DENY + TIE_LOCKS
+TIE_TTLCODE = TIE_TTLCODE + TIE_LOCKS
 TIE_CHANMAP = [(f"TieChanMap.{n}", "Relay.Tie.ChanMap") for n in
                ["R_init", "add_step", "child_step", "parent_step_partial", "DeleteChild_step", "DeleteAndCloseChild_step", "DeleteParent_step",
                 "DeleteAndCloseParent_step_partial", "stepGen_sim", "run_sim", "history_tie", "history_closed_set", "closeAll_perm", "coverage"]]
+TIE_CHANMAP = TIE_CHANMAP + TIE_LOCKS
 TIE_ACCESS = [(f"TieAccess.{n}", "Relay.Tie.Access") for n in
               ["hasRequiredClaims_tie", "claimsCheck_tie", "claimsCheck_not_jwt", "claimsCheck_wrong_claims", "isRelayAdmin_tie", "hasStatsScope_tie",
                "admin_granted_iff", "stats_granted_iff", "coverage"]]
